@@ -96,6 +96,7 @@ class RefMachine:
         self.self = addr
         self.stack = []  # top first
         self.minted = {}  # (ticketer, content) -> total
+        self.lenient = False  # the run used an acceptance of pytezos beyond Michelson typing (ITER over a pair)
 
     def pop(self, n=1):
         if len(self.stack) < n:
@@ -217,6 +218,7 @@ class RefMachine:
                 items = l[2]
             elif l[0] == 'pair':       # pytezos: no type assertion, a pair iterates over its two components
                 items = [l[1], l[2]]
+                self.lenient = True
             else:
                 raise Stuck('not iterable')
             for x in items:
@@ -726,7 +728,7 @@ def run(ctx: lib.Ctx) -> None:
         addr, p = gen_program(rng, addrs, rng.choice([4, 8, 12, 20, 30]), p_bad)
         progs.append(('gen', addr, p))
 
-    cases, meta, direct_bad = [], [], []
+    cases, meta, direct_bad, lenient_cases = [], [], [], []
     reported = 0
     t_impl = time.time()
     for kind, addr, prog in progs:
@@ -740,6 +742,11 @@ def run(ctx: lib.Ctx) -> None:
         for name in ('TICKET', 'READ_TICKET', 'SPLIT_TICKET', 'JOIN_TICKETS', 'DUP', 'DUPN', 'IF_NONE', 'IF_CONS', 'CONS', 'ITER', 'SELF_IS'):
             if has(prog, (name,)):
                 ctx.dist['uses ' + name] += 1
+        if ref_run(addr, prog)[1].lenient:
+            # ITER over a pair is accepted by pytezos only because IterInstruction asserts no type: outside the property;
+            # compared for the record, never part of the verdict (a stricter pytezos must not raise an alarm here)
+            lenient_cases.append((f'({coq_bytes(addr)}, {coq_prog(prog)})', coq_obs(obs) if obs[0] != 'other' else 'Reject'))
+            continue
         if obs[0] == 'other':
             direct_bad.append((addr, prog, obs))
         else:
@@ -754,6 +761,10 @@ def run(ctx: lib.Ctx) -> None:
     t_coq = time.time()
     bad = ctx.coq_mismatches('tickets', IMPORTS, 'fun c => exec_from (fst c) (snd c)', 'obs_eqb', 'bytes * list instr',
                              'result (list val)', cases, shard=125, prelude=prelude)
+    lbad = ctx.coq_mismatches('lenient', IMPORTS, 'fun c => exec_from (fst c) (snd c)', 'obs_eqb', 'bytes * list instr',
+                              'result (list val)', lenient_cases, shard=125, prelude=prelude)
+    ctx.extra['lenient_acceptances'] = {'cases': len(lenient_cases), 'differ_from_model': len(lbad),
+                                        'note': 'programs that ITER over a pair: outside Michelson typing, not part of the verdict'}
     ctx.extra['model_disagreements'] = len(bad) + len(direct_bad)
     ctx.extra['timing_s'] = {'implementation+oracle': round(t_coq - t_impl, 1), 'coqc_cases': round(time.time() - t_coq, 1)}
     if reported == 0 and (bad or direct_bad):
